@@ -158,7 +158,19 @@ mod verif_bounded {
         g.image_nonce = Some(Secret::new([6; 12])); g.self_update_state = SelfUpdateState::CompletedAt(Timestamp::from(77u64));
         m.save_group(g.clone()).unwrap(); s.save_group(g.clone()).unwrap();
         expect(label, "update of every field of g1", "find_group_by_mls_group_id", "SQLite", s.find_group_by_mls_group_id(&gid(1)).unwrap(), Some(g.clone()));
-        expect(label, "update of every field of g1", "find_group_by_mls_group_id", "memory", m.find_group_by_mls_group_id(&gid(1)).unwrap(), Some(g));
+        expect(label, "update of every field of g1", "find_group_by_mls_group_id", "memory", m.find_group_by_mls_group_id(&gid(1)).unwrap(), Some(g.clone()));
+        // ... and a later update may LOWER or CLEAR any of them (a rollback lowers the epoch; a re-join makes the self-update Required
+        // again; an image is removed): the stored record is the one saved last, not a maximum or a merge of the two
+        let mut lower = g.clone(); lower.epoch = 3; lower.self_update_state = SelfUpdateState::CompletedAt(Timestamp::from(50u64));
+        lower.last_message_at = Some(Timestamp::from(2u64)); lower.last_message_processed_at = Some(Timestamp::from(2u64));
+        m.save_group(lower.clone()).unwrap(); s.save_group(lower.clone()).unwrap();
+        expect(label, "g1 saved again with a LOWER epoch, self-update time and last-message times", "find_group_by_mls_group_id", "SQLite", s.find_group_by_mls_group_id(&gid(1)).unwrap(), Some(lower.clone()));
+        expect(label, "g1 saved again with a LOWER epoch, self-update time and last-message times", "find_group_by_mls_group_id", "memory", m.find_group_by_mls_group_id(&gid(1)).unwrap(), Some(lower.clone()));
+        let mut cleared = lower; cleared.self_update_state = SelfUpdateState::Required; cleared.last_message_id = None; cleared.last_message_at = None;
+        cleared.last_message_processed_at = None; cleared.image_hash = None; cleared.image_key = None; cleared.image_nonce = None; cleared.state = GroupState::Active;
+        m.save_group(cleared.clone()).unwrap(); s.save_group(cleared.clone()).unwrap();
+        expect(label, "g1 saved again with self-update Required and the optional fields cleared", "find_group_by_mls_group_id", "SQLite", s.find_group_by_mls_group_id(&gid(1)).unwrap(), Some(cleared.clone()));
+        expect(label, "g1 saved again with self-update Required and the optional fields cleared", "find_group_by_mls_group_id", "memory", m.find_group_by_mls_group_id(&gid(1)).unwrap(), Some(cleared));
     }
 
     // C02 / C01 / C07: a rollback to epoch E invalidates exactly the records of THIS group with epoch > E. Scope: 2 groups, message
@@ -358,6 +370,25 @@ mod verif_bounded {
             }
         }}}
     }
+    // C09 "re-taking a snapshot under an existing name replaces it": snapshot N of state A, change to B, snapshot N again, change to C,
+    // roll back to N: the group must show state B on both back ends. Scope: one group, one name taken twice.
+    #[test]
+    fn retaking_a_snapshot_under_an_existing_name_replaces_it() {
+        let label = "sqlite_bounded.retaking_a_snapshot_under_an_existing_name_replaces_it";
+        let (m, s) = stores();
+        for (name, st) in [("memory", &m as &dyn StoreOps), ("SQLite", &s as &dyn StoreOps)] {
+            let mut g = group(1, 1); g.name = "state A".into(); st.put_group(g);
+            let r1 = st.try_snap(1, "N");
+            let mut g = group(1, 1); g.name = "state B".into(); g.epoch = 2; st.put_group(g);
+            let r2 = st.try_snap(1, "N");
+            let mut g = group(1, 1); g.name = "state C".into(); g.epoch = 3; st.put_group(g);
+            let scen = "g1: snapshot N of state A, change to state B, snapshot N AGAIN, change to state C, rollback to N";
+            expect(label, scen, "first create_group_snapshot(g1, N)", name, r1, true);
+            expect(label, scen, "second create_group_snapshot(g1, N) (same name)", name, r2, true);
+            st.try_rollback(1, "N");
+            expect(label, scen, "group record after the rollback", name, st.get_group(1).map(|g| g.name), Some("state B".to_string()));
+        }
+    }
     // C02 / C18 / C07: a rollback of a group destroys no stored message, dedup record or welcome (it restores the group's MLS state,
     // record, relays and per-epoch secrets only). Scope: 2 groups with 3 messages / 2 dedup records each and one welcome, one rollback.
     #[test]
@@ -392,10 +423,12 @@ mod verif_bounded {
         expect(label, scen, "g1 is still found under its nostr id", "SQLite", s.find_group_by_nostr_group_id(&[1; 32]).unwrap().map(|g| g.mls_group_id), Some(gid(1)));
     }
     trait StoreOps {
-        fn put_group(&self, g: Group); fn put_secret(&self, s: GroupExporterSecret); fn put_relays(&self, g: u8, r: BTreeSet<RelayUrl>); fn snap(&self, g: u8, name: &str);
+        fn try_snap(&self, g: u8, name: &str) -> bool; fn try_rollback(&self, g: u8, name: &str) -> bool; fn put_group(&self, g: Group); fn put_secret(&self, s: GroupExporterSecret); fn put_relays(&self, g: u8, r: BTreeSet<RelayUrl>); fn snap(&self, g: u8, name: &str);
         fn get_group(&self, g: u8) -> Option<Group>; fn get_relays(&self, g: u8) -> BTreeSet<String>; fn get_secret(&self, g: u8, e: u64) -> Option<[u8; 32]>;
     }
     impl<T: MdkStorageProvider> StoreOps for T {
+        fn try_snap(&self, g: u8, name: &str) -> bool { self.create_group_snapshot(&gid(g), name).is_ok() }
+        fn try_rollback(&self, g: u8, name: &str) -> bool { self.rollback_group_to_snapshot(&gid(g), name).is_ok() }
         fn put_group(&self, g: Group) { self.save_group(g).unwrap() }
         fn put_secret(&self, s: GroupExporterSecret) { self.save_group_exporter_secret(s).unwrap() }
         fn put_relays(&self, g: u8, r: BTreeSet<RelayUrl>) { self.replace_group_relays(&gid(g), r).unwrap() }
